@@ -31,13 +31,15 @@ func TestC06(t *testing.T) {
 // candidate the product offers) with reclamation on in most cases.
 var c06DelCfg = GenCfg{
 	MinBlocks: 4, MaxBlocks: 24, MinOps: 8, MaxOps: 50,
-	W: map[string]int{"write": 30, "snap": 24, "remove": 16, "markrm": 9, "setcp": 7, "reopen": 4, "revert": 2, "punch": 1, "read": 2, "lunmap": 1},
+	W:          map[string]int{"write": 30, "snap": 24, "remove": 16, "markrm": 9, "setcp": 7, "reopen": 4, "revert": 2, "punch": 1, "read": 2, "lunmap": 1},
 	PunchStart: 70, MaxChainMin: 7, MaxChainMax: 12,
 }
 
 func TestC06Deletion(t *testing.T) {
 	runEngineProperty(t, "C06", "TestC06Deletion", func(rt *rapid.T) Program { return GenProgram(rt, c06DelCfg) },
-		func(p Program, e *Engine) bool { return e != nil && e.Labels["remove:ok"] > 0 && features(p).UserSnaps >= 1 },
+		func(p Program, e *Engine) bool {
+			return e != nil && e.Labels["remove:ok"] > 0 && features(p).UserSnaps >= 1
+		},
 		func(e *Engine) { e.FollowInvalidCandidates = true })
 }
 
